@@ -41,7 +41,7 @@ def TiltEl.disp (e : TiltEl R) (z wl : R) : R × R := e.shift 0 0 z wl
 
 theorem TiltEl.shift_eq_add (e : TiltEl R) (xs ys z wl : R) :
     e.shift xs ys z wl = (xs + (e.disp z wl).1, ys + (e.disp z wl).2) := by
-  cases e <;> simp only [TiltEl.shift, TiltEl.disp, Gen.tiltShift, Gen.dispersiveShift1] <;> refine Prod.ext ?_ ?_ <;> simp only <;> ring
+  cases e <;> simp only [TiltEl.shift, TiltEl.disp, Gen.tiltShift, Gen.dispersiveShift1, Gen.dispersiveTail] <;> refine Prod.ext ?_ ?_ <;> simp only <;> ring
 
 theorem foldl_shift (ts : List (TiltEl R)) (z wl : R) (p : R × R) :
     ts.foldl (fun p e => e.shift p.1 p.2 z wl) p =
